@@ -16,6 +16,7 @@ import pymbolic.mapper.stringifier as strmod
 
 from ..core import check, short
 from ..gen import expr as G
+from ..mon import streams
 from ..mon.trace import HandlerTrace
 from ..ref import normal, refsem
 
@@ -197,6 +198,13 @@ FENV = {"sin": math.sin, "cos": math.cos, "exp": math.exp, "sqrt": math.sqrt, "f
 IDENT = re.compile(r"\b_cse\w*\b")
 
 
+def _s(e):
+    try:
+        return str(e)
+    except Exception:  # noqa: BLE001   (histories hold expressions the printer refuses)
+        return G.src(e)
+
+
 def in_range(e, grid):
     """every sub-expression value stays below LIMIT on the whole grid (integer fragment)"""
     for pt in grid:
@@ -309,6 +317,17 @@ def c_unit(ctx, case):
                     _, i, k = step
                     texts[k].append((i, mappers[k](exprs[i])))
                     known[k].append(exprs[i])
+                elif step[0] == "fail":
+                    # an expression the mapper must refuse (a foreign object below a wrapper):
+                    # the caller catches the error and carries on with the same mapper
+                    _, i, k = step
+                    try:
+                        mappers[k](exprs[i])
+                    except RecursionError:
+                        raise
+                    except Exception:  # noqa: BLE001
+                        ctx.count("failed_renders_in_history")
+                    known[k].append(exprs[i])
                 elif step[0] == "copy":
                     k = step[1]
                     mappers.append(mappers[k].copy())
@@ -333,7 +352,7 @@ def c_unit(ctx, case):
         ctx.count("mappers_in_history:%d" % min(len(mappers), 4))
         if gen_error:
             ctx.fail("C14.unit", (kind, [hist]), f"generation-raised:{gen_error.split(':')[0]}",
-                     f"CCodeMapper history {plan} over {[str(e) for e in exprs]} raised {gen_error}")
+                     f"CCodeMapper history {plan} over {[_s(e) for e in exprs]} raised {gen_error}")
             continue
         for k, m in enumerate(mappers):
             if not texts[k]:
@@ -354,12 +373,21 @@ def c_unit(ctx, case):
             ctx.count("cse_assignments", len(nl))
             if probs:
                 ctx.fail("C14.unit", (kind, [hist]), f"cse-list:{probs[0].split(':')[0][:40]}",
-                         f"history {plan} over {[str(e) for e in exprs]}: mapper #{k}: {probs}; its "
+                         f"history {plan} over {[_s(e) for e in exprs]}: mapper #{k}: {probs}; its "
                          f"cse_name_list = {nl}; emitted {[t for _, t in texts[k]]}")
                 continue
             units.append((uid, assigns, [t for _, t in texts[k]]))
             meta[uid] = ([exprs[i] for i, _ in texts[k]], [t for _, t in texts[k]], nl, hist)
             uid += 1
+    compile_and_compare(ctx, "C14.unit", case, kind, units, meta)
+
+
+def compile_and_compare(ctx, check_name, case, kind, units, meta):
+    """units: (uid, assignments, result texts); meta[uid] = (expressions, texts, name list,
+    the history to replay).  Builds one translation unit per compiler and compares every
+    printed value with the reference evaluator's."""
+    T, fmt = ("long long", "%lld") if kind == "int" else ("double", "%.17g")
+    grid = GRID_I if kind == "int" else GRID_F
     if not units:
         return
     try:
@@ -378,15 +406,15 @@ def c_unit(ctx, case):
                     break
             if culprit:
                 u, err = culprit
-                ctx.fail("C14.unit", (kind, [meta[u[0]][3]]), f"{comp}:does-not-compile",
+                ctx.fail(check_name, (kind, [meta[u[0]][3]]), f"{comp}:does-not-compile",
                          f"{comp} rejects the C generated for {[str(e) for e in meta[u[0]][0]]}: "
                          f"assignments {u[1]} results {u[2]}: {err[:400]}")
             else:
-                ctx.fail("C14.unit", case, f"{comp}:does-not-compile", res[1][:600])
+                ctx.fail(check_name, case, f"{comp}:does-not-compile", res[1][:600])
             continue
         _, vals, rc, stderr = res
         if rc != 0 or "runtime error" in stderr or "AddressSanitizer" in stderr:
-            ctx.fail("C14.unit", case, f"{comp}:sanitizer-or-crash",
+            ctx.fail(check_name, case, f"{comp}:sanitizer-or-crash",
                      f"{comp} binary exited {rc}: {stderr[:600]}")
         for uid, (exprs, texts, nl, hist) in meta.items():
             bad = None
@@ -417,9 +445,76 @@ def c_unit(ctx, case):
                     break
             if bad:
                 e, txt, pt, got, w = bad
-                ctx.fail("C14.unit", (kind, [hist]), f"{comp}:value:{kind}:{_csig(e)}",
+                ctx.fail(check_name, (kind, [hist]), f"{comp}:value:{kind}:{_csig(e)}",
                          f"{e} was emitted as `{txt}` with assignments {nl}; at x,y,z={pt} the "
                          f"{comp} binary prints {got}, the evaluator gives {w}")
+
+
+def stream_rows(seed, n, kind):
+    """kernels built on the fly, each wrapping a DIFFERENT subexpression"""
+    import random
+    r = random.Random(seed)
+    gen = gi if kind == "int" else gf
+    grid = GRID_I if kind == "int" else GRID_F
+    one = 1 if kind == "int" else 1.0
+    x, y = V[0], V[1]
+    for i in range(n):
+        k = r.random()
+        if k < 0.5:
+            yield p.Product((CSE(p.Sum((p.Product((x, i + 2)), y)), "t"), i + one))
+        elif k < 0.7:
+            yield p.Sum((CSE(p.Sum((y, i + one))), CSE(p.Product((i + 2, x)), "t")))
+        else:
+            e = gen(r, 2, [])
+            if not isinstance(e, p.Expression) or (kind == "int" and not in_range(e, grid)):
+                e = x
+            yield p.Sum((CSE(p.Sum((e, i + one)), r.choice(["t", None])), y))
+
+
+@check("C14.stream")
+def c_stream(ctx, case):
+    """ONE CCodeMapper over a stream of kernels built on the fly, each dropped once its text
+    exists (node addresses are recycled while the mapper lives on): what is emitted depends on
+    the kernel's value, never on the object carrying it."""
+    kind, streams_ = case
+    units, meta = [], {}
+    for uid, (seed, n) in enumerate(streams_):
+        m = CCodeMapper()
+        kept, texts = [], []
+        err = []
+
+        def judge(i, e, m=m, kept=kept, texts=texts, err=err):
+            if err:
+                return
+            kept.append(G.deep_rebuild(e))      # the oracle's own copy; the row itself goes
+            try:
+                texts.append(m(e))
+            except RecursionError:
+                raise
+            except Exception as ex:  # noqa: BLE001
+                err.append(f"row {i} ({e}): {type(ex).__name__}: {ex}")
+        streams.each(ctx, stream_rows(seed, n, kind), judge)
+        ctx.case(None)
+        ctx.count("stream:histories")
+        if err:
+            ctx.fail("C14.stream", (kind, [(seed, n)]), "generation-raised",
+                     f"one CCodeMapper over a stream of temporaries raised at {err[0]}")
+            continue
+        nl = [(n_, c) for n_, c in m.cse_name_list]
+        probs = audit_name_list(nl, distinct_children(kept))
+        names_known = {n_ for n_, _ in nl}
+        for t in texts:
+            for used in IDENT.findall(t):
+                if used not in names_known:
+                    probs.append(f"result text uses {used}, which is never assigned")
+        if probs:
+            ctx.fail("C14.stream", (kind, [(seed, n)]), f"cse-list:{probs[0].split(':')[0][:40]}",
+                     f"stream of {n} temporaries {[str(e) for e in kept][:6]}...: {probs[:3]}; "
+                     f"cse_name_list = {nl[:8]}...; emitted {texts[:6]}...")
+            continue
+        units.append((uid, [(a, b) for a, b in nl], texts))
+        meta[uid] = (kept, texts, nl, (seed, n))
+    compile_and_compare(ctx, "C14.stream", case, kind, units, meta)
 
 
 def _csig(e):
@@ -494,6 +589,20 @@ def make_history(rng, kind):
                 exprs.append(p.Sum((CSE(child, "m"), 1)))
                 plan.append(("map", len(exprs) - 1, nm - 1))
         plan.append(("map", i, rng.randrange(nm)))
+    if rng.random() < 0.25:
+        # a render that fails half-way (after an inner wrapper was hoisted), then valid
+        # expressions on the same mapper that use that inner wrapper
+        c = p.Sum((rng.choice(V), 41 if kind == "int" else 41.5))
+        inner = CSE(c, rng.choice(["s", None]))
+        bad = rng.choice([None, "oops"])
+        failing = p.Sum((CSE(p.Product((inner, p.Sum((inner, bad)))), "f"), 1))
+        k = rng.randrange(nm)
+        exprs.append(failing)
+        plan.append(("fail", len(exprs) - 1, k))
+        exprs.append(p.Sum((inner, 2 if kind == "int" else 2.0)))
+        plan.append(("map", len(exprs) - 1, k))
+        exprs.append(p.Product((CSE(G.deep_rebuild(c), inner.prefix), 3 if kind == "int" else 3.0)))
+        plan.append(("map", len(exprs) - 1, k))
     return exprs, plan
 
 
@@ -517,14 +626,22 @@ def workload(ctx):
                             if isinstance(x, p.Expression) and not isinstance(x, p.Variable):
                                 ctx.node(type(x).__name__)
                 if u == 0:
-                    ctx.sample(f"{kind}-history", {"exprs": [str(e) for e in hists[0][0]],
+                    ctx.sample(f"{kind}-history", {"exprs": [_s(e) for e in hists[0][0]],
                                                    "plan": [list(st) for st in hists[0][1]]})
                 ctx.run("C14.unit", (kind, hists))
+        for kind in ("int", "float"):
+            if ctx.mine("stream"):
+                sts = [(rng.getrandbits(32), rng.randint(20, 60)) for _ in range(ctx.pick(12, 60))]
+                ctx.case(("stream", kind, tuple(sts)), True, n=0)
+                ctx.run("C14.stream", (kind, sts))
         for k, v in tr.handlers().items():
             ctx.count("handler:" + k, v)
+    ctx.floor("stream:rows", 400)
+    ctx.floor("stream:row_address_reused", 100)
     ctx.floor("translation_units:gcc", 2)
     ctx.floor("translation_units:clang-san", 2)
     ctx.floor("c_values_compared", 5000)
     ctx.floor("compiler:clang-san", 2000)
     ctx.floor("cse_assignments", 100)
     ctx.floor("histories", 300)
+    ctx.floor("failed_renders_in_history", 30)
